@@ -260,6 +260,17 @@ def v_context(p):
   inst = [n for n in tree.body if isinstance(n, ast.Assign) and ast.unparse(n.targets[0]) == '_BACKEND_CHOICE']
   p.oblige('ctx.thread.instance', [], z3.BoolVal(len(inst) == 1 and ast.unparse(inst[0].value) == 'BackendChoice()'), kind='frame',
            fn='BackendChoice', detail='_BACKEND_CHOICE is one module-level BackendChoice() instance')
+  # class-level mutable containers would be shared by all threads (only instance attributes of a threading.local are per thread)
+  shared = []
+  for st in (cls[0].body if cls else []):
+    if isinstance(st, (ast.Assign, ast.AnnAssign)) and st.value is not None:
+      v = st.value
+      if isinstance(v, (ast.List, ast.Dict, ast.Set, ast.ListComp, ast.DictComp, ast.SetComp)) or (
+          isinstance(v, ast.Call) and ast.unparse(v.func) in ('list', 'dict', 'set', 'collections.deque', 'deque',
+                                                             'collections.defaultdict', 'defaultdict')):
+        shared.append(ast.unparse(st)[:60])
+  p.oblige('ctx.thread.classattrs', [], z3.BoolVal(not shared), kind='frame', fn='BackendChoice',
+           detail=f'BackendChoice has no class-level mutable container (shared by every thread): {shared}')
   # every store into _BACKEND_CHOICE in the module goes through the .backend attribute
   stores = [n for n in ast.walk(tree) if isinstance(n, (ast.Assign, ast.AugAssign)) and any(
       '_BACKEND_CHOICE' in ast.unparse(t) for t in (n.targets if isinstance(n, ast.Assign) else [n.target]))]
@@ -278,7 +289,11 @@ def v_context(p):
     # previously selected: nothing yet (None) or some backend object
     old = None if ctx.choose(2) == 0 else ctx.alloc(ObjCell(ClassModel('OldBackend', {}, bases=(base,)), {}, label='old backend'))
     ctx.tags['old'] = old
-    choice = ctx.alloc(ObjCell(None, {'backend': old}, owner='global', label='_BACKEND_CHOICE'))
+    try:
+      bc_cls = eng._resolve_in(ctx, FE, 'BackendChoice')[0]     # the real class: helper methods of a refactor resolve
+    except Exception:  # pylint: disable=broad-except
+      bc_cls = None
+    choice = ctx.alloc(ObjCell(bc_cls, {'backend': old}, owner='global', label='_BACKEND_CHOICE'))
     eng.globals['_BACKEND_CHOICE'] = choice
     k = ctx.choose(len(CASES))
     case = CASES[k]
